@@ -39,10 +39,11 @@ SPECS = {
     "C04": pcheck.PSpec(
         "C04",
         clauses=["FaultMissed", "SpuriousFault", "RowsMatch", "Accepts", "Compiles", "BookingFault"],
-        profiles={"quick": [("MCQueryGen_fault.cfg", None)],
-                  "thorough": [("MCQueryGen_fault_t.cfg", None)]},
-        events={"quick": 12, "thorough": 40},
-        cap={"quick": 1500, "thorough": 12000},
+        profiles={"quick": [("MCQueryGen_fault.cfg", None), ("MCQueryGen_guard.cfg", None)],
+                  "thorough": [("MCQueryGen_fault_t.cfg", None), ("MCQueryGen_guard_t.cfg", None)]},
+        events={"quick": 5, "thorough": 40},
+        cap={"quick": 2200, "thorough": 16000},
+        math=True,
     ),
     "C05": pcheck.PSpec(
         "C05",
